@@ -519,8 +519,8 @@ class IFMR:
         # Black Holes
         # ------------------------------------------------------------------
 
-        if BH_kwargs is None:
-            BH_kwargs = dict()
+        # copy, the metallicity is added below and the caller's dict must not change
+        BH_kwargs = dict() if BH_kwargs is None else dict(BH_kwargs)
 
         match BH_method.casefold():
 
@@ -566,8 +566,7 @@ class IFMR:
         # White Dwarfs
         # ------------------------------------------------------------------
 
-        if WD_kwargs is None:
-            WD_kwargs = dict()
+        WD_kwargs = dict() if WD_kwargs is None else dict(WD_kwargs)
 
         match WD_method.casefold():
 
